@@ -939,6 +939,57 @@ def _import_origin(tree: ast.Module, name: str):
     return None
 
 
+def exec_scope_table(repo: Repo, R: str = "E9.exec_scope"):
+    """The dictionary handed to `exec` as globals of the generated evals, in one normal form:
+    -> ({name: value AST}, user scope merged last?, node for locations).
+    Understood: one dict display, possibly spreading other local dict displays (`{**defaults, **(scope or {})}`), possibly
+    followed by `.update(scope or {})`."""
+    from .core import own_nodes
+    sc = repo.find("algorithm_parsing::series_computation", R)
+    ex = [n for n in own_nodes(sc) if isinstance(n, ast.Call) and call_name(n) == "exec" and len(n.args) >= 2]
+    if len(ex) != 1 or not isinstance(ex[0].args[1], ast.Name):
+        raise AnalysisError(R, "series_computation: the exec(..., <scope name>) call was not found")
+    S = ex[0].args[1].id
+    USER = ("scope or {}", "scope if scope is not None else {}", "scope if scope else {}", "{} if scope is None else scope", "scope")
+
+    def dict_of(name, depth=0):
+        asg = [n for n in own_nodes(sc) if isinstance(n, ast.Assign) and len(n.targets) == 1 and norm(n.targets[0]) == name]
+        if len(asg) != 1 or depth > 3:
+            raise AnalysisError(R, f"series_computation: `{name}` is not assigned exactly once")
+        v = asg[0].value
+        if isinstance(v, ast.Call) and call_name(v) == "dict" and not v.args:
+            v = ast.Dict(keys=[ast.Constant(value=k.arg) if k.arg else None for k in v.keywords], values=[k.value for k in v.keywords])
+        if not isinstance(v, ast.Dict):
+            raise AnalysisError(R, f"series_computation: `{name}` is not a dict display")
+        entries, order = {}, []
+        for k, val in zip(v.keys, v.values):
+            if isinstance(k, ast.Constant) and isinstance(k.value, str):
+                entries[k.value] = val
+                order.append(("key", k.value))
+            elif k is None and norm(val) in USER:
+                order.append(("user", None))
+            elif k is None and isinstance(val, ast.Name):
+                sub, sub_order, _n = dict_of(val.id, depth + 1)
+                entries.update(sub)
+                order += sub_order
+            else:
+                raise AnalysisError(R, f"series_computation: entry `{norm(k) if k is not None else '**' + norm(val)[:30]}` of `{name}` not understood")
+        return entries, order, asg[0]
+
+    entries, order, node = dict_of(S)
+    for n in own_nodes(sc):
+        if isinstance(n, ast.Call) and isinstance(n.func, ast.Attribute) and n.func.attr == "update" and norm(n.func.value) == S:
+            if len(n.args) == 1 and norm(n.args[0]) in USER and n.lineno > node.lineno and n.lineno < ex[0].lineno:
+                order.append(("user", None))
+            else:
+                raise AnalysisError(R, f"series_computation: `{norm(n)[:60]}` changes the exec scope in a way that is not understood")
+        if isinstance(n, ast.Assign) and isinstance(n.targets[0], ast.Subscript) and norm(n.targets[0].value) == S:
+            raise AnalysisError(R, f"series_computation: `{norm(n)[:60]}` changes the exec scope in a way that is not understood")
+    users = [i for i, (k, _v) in enumerate(order) if k == "user"]
+    user_last = len(users) == 1 and users[0] == len(order) - 1
+    return entries, user_last, node, bool(users)
+
+
 def rule_exec_scope(rep: Report, repo: Repo):
     """The generated evals call `Dagger`, `zero`, `_zero_sum`, `_safe_divide`, `series`, `del_` ... by name; the exec scope
     must bind each of these names to the object the reference semantics means.  `Dagger` in particular must be the adjoint
@@ -949,12 +1000,10 @@ def rule_exec_scope(rep: Report, repo: Repo):
     R = "E9.exec_scope"
     sc = repo.find("algorithm_parsing::series_computation", R)
     loc = lambda n: repo.loc("algorithm_parsing", n)
-    es = [n for n in own_nodes(sc) if isinstance(n, ast.Assign) and isinstance(n.value, ast.Dict)
-          and any(isinstance(k, ast.Constant) and k.value == "Dagger" for k in n.value.keys if k is not None)]
-    if len(es) != 1:
-        raise AnalysisError(R, "exec scope dictionary (with a `Dagger` entry) not found in series_computation")
-    d = es[0].value
-    dd = {k.value: v for k, v in zip(d.keys, d.values) if isinstance(k, ast.Constant)}
+    dd, _user_last, es_node, _has_user = exec_scope_table(repo, R)
+    es = [es_node]
+    if "Dagger" not in dd:
+        raise AnalysisError(R, "exec scope has no `Dagger` entry")
     tree = repo.trees["algorithm_parsing"]
     # identity bindings: the scope name is the module-level / local object of the same name
     for nm, origin in (("zero", ("pymablock.series", "zero")), ("_zero_sum", None), ("_safe_divide", None)):
